@@ -58,6 +58,17 @@ def rand_claims(rng):
                                         rng.randrange(60), rng.randrange(1000000), tzinfo=tz)
         elif r < 0.65:
             c[name] = 1.5
+    # claim sets of a few to a few dozen kilobytes, from incompressible to extremely repetitive (what DEFLATE shrinks
+    # a thousandfold): still far below any size limit of either transport
+    r = rng.random()
+    if r < 0.06:
+        c["pad"] = "A" * rng.choice([3000, 8000, 40000])
+    elif r < 0.12:
+        c["roles"] = ["user"] * rng.choice([500, 2000])
+    elif r < 0.18:
+        c["perms"] = [{"resource": "doc", "action": "read", "allow": True}] * rng.choice([100, 300])
+    elif r < 0.22:
+        c["blob"] = "".join(rng.choice("abcdefghijklmnopqrstuvwxyz0123456789") for _ in range(6000))
     return c
 
 
@@ -85,6 +96,13 @@ def run(ctx):
     for i in range(n):
         transport = rng.choice(["jws", "jws", "jwe"])
         claims = rand_claims(rng)
+        force_zip = False
+        if i < 8:
+            # always present: highly compressible claim sets over the compressed JWE transport (and uncompressed / JWS for contrast)
+            transport = ["jwe", "jwe", "jwe", "jws", "jwe", "jwe", "jwe", "jws"][i]
+            claims = dict(claims, **[{"pad": "A" * 8000}, {"roles": ["user"] * 2000}, {"perms": [{"resource": "doc", "action": "read"}] * 300}, {"pad": "B" * 8000},
+                                      {"pad": "A" * 40000}, {"roles": ["admin", "user"] * 700}, {"pad": "é" * 3000}, {"roles": ["user"] * 2000}][i])
+            force_zip = transport == "jwe" and i != 6
         header_extra = rng.choice([{}, {"typ": "at+jwt"}, {"kid": "k1"}, {"cty": "x"}, {"typ": "JWT", "x5t": "abc"},
                                    # an explicit typ overrides the default verbatim - whatever its case or content
                                    {"typ": "jwt"}, {"typ": "Jwt"}, {"typ": "JWT "}, {"typ": "jwT", "cty": "JWT"}, {"typ": "application/jwt"}])
@@ -99,7 +117,7 @@ def run(ctx):
             header = {"alg": alg, "enc": enc, **header_extra}
             # every registered JWE header member the caller may give comes back as given - also the ones that steer the
             # transport (zip, with claims that do and do not shrink under DEFLATE)
-            if rng.random() < 0.4:
+            if rng.random() < 0.4 or force_zip:
                 header["zip"] = "DEF"
             if rng.random() < 0.15:
                 header["cty"] = rng.choice(["JWT", "example"])
